@@ -273,6 +273,19 @@ class coverage:
         return False
 
 
+def schema_only(test: ast.AST) -> bool:
+    """The condition asks only which columns / keys exist (`c in t.columns`, `c not in row`, combined by and / or / not): it
+    distinguishes classes of *schema*, which a rule enumerates by its table classes, not values of the data."""
+    if isinstance(test, ast.BoolOp):
+        return all(schema_only(v) for v in test.values)
+    if isinstance(test, ast.UnaryOp) and isinstance(test.op, ast.Not):
+        return schema_only(test.operand)
+    if isinstance(test, ast.Compare) and len(test.ops) == 1 and isinstance(test.ops[0], (ast.In, ast.NotIn)):
+        c = test.comparators[0]
+        return isinstance(c, ast.Attribute) and c.attr in ("columns", "index", "attrs") and isinstance(test.left, (ast.Constant, ast.Name))
+    return False
+
+
 def unreached_exits(fdef: ast.AST, cov: set, kinds: Sequence[type] = (ast.Continue, ast.Break, ast.Return), data: Optional[Sequence[str]] = None) -> List[tuple]:
     """[(exit statement, text of the innermost condition it stands under)] for the conditional exits of `fdef` (nested defs
     excluded) that no interpreted run executed although the function itself ran.  `raise` is not listed by default: a refusal is
@@ -308,10 +321,12 @@ def unreached_exits(fdef: ast.AST, cov: set, kinds: Sequence[type] = (ast.Contin
                             changed = True
     out: List[tuple] = []
 
-    def walk(stmts: Sequence[ast.stmt], guard: str, names: frozenset, in_loop: bool) -> None:
+    def walk(stmts: Sequence[ast.stmt], guard: str, names: frozenset, in_loop: bool, schema: bool = False) -> None:
         for st in stmts:
             if isinstance(st, (ast.FunctionDef, ast.AsyncFunctionDef, ast.ClassDef)):
                 continue
+            if isinstance(st, tuple(kinds)) and schema and tainted is not None:
+                continue  # chosen by which columns exist, not by what they hold
             if isinstance(st, tuple(kinds)):
                 # continue / break end a round of the innermost loop: that matters when the loop goes over the records of the input
                 # (its rows, lines, atoms), not when it goes over a constant list (column names, table rows of the program);
@@ -323,8 +338,9 @@ def unreached_exits(fdef: ast.AST, cov: set, kinds: Sequence[type] = (ast.Contin
             if isinstance(st, ast.If):
                 t = ast.unparse(st.test)
                 nm = names | frozenset(x.id for x in ast.walk(st.test) if isinstance(x, ast.Name))
-                walk(st.body, t, nm, in_loop)
-                walk(st.orelse, f"not ({t})", nm, in_loop)
+                sch = schema_only(st.test)
+                walk(st.body, t, nm, in_loop, sch)
+                walk(st.orelse, f"not ({t})", nm, in_loop, sch)
             elif isinstance(st, (ast.For, ast.While)):
                 over = st.iter if isinstance(st, ast.For) else st.test
                 data_loop = tainted is None or any(isinstance(x, ast.Name) and x.id in tainted for x in ast.walk(over))
